@@ -664,13 +664,6 @@ func autoTARefreshFailureCounter(err error, fallback *metric.Counter) *metric.Co
 	}
 }
 
-// sameKeyExceptRevoke reports whether revokedKey is the same DNSKEY
-// as currentKey with only the REVOKE bit toggled. Key tags are 16-bit
-// checksums and can collide, so identifying a revocation by tag alone
-// would let an unrelated self-signed key authenticate as a revocation
-// of the real trust anchor. Comparing the actual key material
-// (algorithm, protocol, public key, and flags modulo REVOKE) closes
-// that gap.
 // unrevokedKeyTag returns the tag revokedKey had before its REVOKE bit
 // was set — the tag its anchor is tracked under. Setting the bit adds 128
 // to the checksum the tag is folded from, which is usually, but not
@@ -684,6 +677,13 @@ func unrevokedKeyTag(revokedKey *dns.DNSKEY) uint16 {
 	return dnssec.KeyTag(&unrevoked)
 }
 
+// sameKeyExceptRevoke reports whether revokedKey is the same DNSKEY
+// as currentKey with only the REVOKE bit toggled. Key tags are 16-bit
+// checksums and can collide, so identifying a revocation by tag alone
+// would let an unrelated self-signed key authenticate as a revocation
+// of the real trust anchor. Comparing the actual key material
+// (algorithm, protocol, public key, and flags modulo REVOKE) closes
+// that gap.
 func sameKeyExceptRevoke(currentKey, revokedKey *dns.DNSKEY) bool {
 	if currentKey == nil || revokedKey == nil {
 		return false
@@ -763,21 +763,6 @@ func stageRevocationSelfSignatures(
 	return selfSignedByTag, nil
 }
 
-// verifyFetchedKeysWithWork authenticates a freshly fetched root DNSKEY RRset
-// against the currently trusted KSKs per RFC 5011 §2.2: the RRset is
-// accepted if *at least one* RRSIG from a currently-valid trust anchor
-// verifies it. RRSIGs from unknown keys (e.g. a newly published KSK
-// that hasn't cleared hold-down yet) are ignored rather than treated
-// as failure — this is required for KSK rollovers where the zone is
-// co-signed by the old and new KSK.
-//
-// Revoked keys are a narrow exception. Per RFC 5011 §2.1 a revoked
-// key may be used "to validate the RRSIG it signed over the DNSKEY
-// RRSet specifically for the purpose of validating the revocation".
-// The returned revocationOnly flag indicates that no non-revoked
-// currently-trusted anchor signed the RRset: only revocation
-// processing is safe against that response, and the caller must not drive any
-// other state transition (AddPend seeding, Missing marking, etc.) from it.
 // withoutKeys returns keys minus the excluded ones (keys itself when nothing
 // is excluded).
 func withoutKeys(keys map[uint16][]*dns.DNSKEY, excluded map[*dns.DNSKEY]bool) map[uint16][]*dns.DNSKEY {
@@ -795,6 +780,21 @@ func withoutKeys(keys map[uint16][]*dns.DNSKEY, excluded map[*dns.DNSKEY]bool) m
 	return out
 }
 
+// verifyFetchedKeysWithWork authenticates a freshly fetched root DNSKEY RRset
+// against the currently trusted KSKs per RFC 5011 §2.2: the RRset is
+// accepted if *at least one* RRSIG from a currently-valid trust anchor
+// verifies it. RRSIGs from unknown keys (e.g. a newly published KSK
+// that hasn't cleared hold-down yet) are ignored rather than treated
+// as failure — this is required for KSK rollovers where the zone is
+// co-signed by the old and new KSK.
+//
+// Revoked keys are a narrow exception. Per RFC 5011 §2.1 a revoked
+// key may be used "to validate the RRSIG it signed over the DNSKEY
+// RRSet specifically for the purpose of validating the revocation".
+// The returned revocationOnly flag indicates that no non-revoked
+// currently-trusted anchor signed the RRset: only revocation
+// processing is safe against that response, and the caller must not drive any
+// other state transition (AddPend seeding, Missing marking, etc.) from it.
 func verifyFetchedKeysWithWork(
 	rootKeys []dns.RR,
 	rrs []dns.RR,
